@@ -219,7 +219,7 @@ PROPS["C04"]["claim"] = {
 }
 PROPS["C08"]["claim"] = {
     "text": "Theorems (Properties/C08.v) on the thrift model: EVERY byte string decodes to a value or an error for either protocol and any target type - the bitset index check and the collection-size handling can never panic, fuel is linear in the input; "
-            "every proper prefix of a valid encoding yields io.EOF (empty) or an unexpected-EOF class error; trailing bytes are reported. Unknown fields (t_unknown_fields: any number of undeclared fields of any type at every field boundary of the top-level struct, both protocols, decode to the narrow result), MissingField (t_missing_field, t_absent_optional) and wrong wire types (t_mismatch_strict: TypeMismatch in strict mode; t_mismatch_skipped, t_mismatch_list: skipped entirely in non-strict mode, the other fields unaffected) are theorems too. Allocation behaviour (runs under an address-space limit), unknown fields inside nested structs and the set/map mismatch variants are decided by correspondence.",
+            "every proper prefix of a valid encoding yields io.EOF (empty) or an unexpected-EOF class error; trailing bytes are reported. Unknown fields (t_unknown_fields: any number of undeclared fields of any type at every field boundary of the top-level struct, both protocols, decode to the narrow result), MissingField (t_missing_field, t_absent_optional) and wrong wire types (t_mismatch_strict: TypeMismatch in strict mode; t_mismatch_skipped, t_mismatch_list: skipped entirely in non-strict mode, the other fields unaffected) are theorems too. Allocation behaviour (runs under an address-space limit), unknown fields inside nested structs and the set/map mismatch variants are decided by correspondence. Further (Thrift/SpecD.v): unknown fields at ANY nesting depth - through struct fields, list items, map values and pointers, relation widens - decode to the narrow value up to tnorm from Marshal's bytes and from every alternative conformant encoding, in strict and non-strict mode (t_unknown_nested, t_widen_accept, t_widen_decode); every proper prefix of every alternative and of every widened encoding is an EOF-class error and trailing bytes are reported (t_widen_alt_prefix_eof, t_alt_prefix_eof, t_widen_prefix_eof, t_widen_alt_trailing); a declared set or map whose wire item, key or value type differs is skipped as a whole in non-strict mode and is a TypeMismatch in strict mode, with the empty-collection special cases stated (t_mismatch_set*, t_mismatch_map*, t_mismatch_list_empty), also as a field of a struct whose other fields are unaffected (t_mismatch_coll_field_*); no accepted input announces a negative count: the header readers, the typed decoders and the skip paths all reject it (t_header_size_nonneg, t_negative_*), lengths and compact counts of 2^31 and more are refused, and a count larger than the bytes that follow makes every decoder fail (t_oversized_*). The negative-count theorems were first REFUTED on the model (a skipped list of size -1 was accepted as empty); the witness replayed on the real code was a genuine defect, repaired as 4734263, after which the universal statement was proved.",
     "note": "Trusted as C04. Memory allocation is observed (ulimit -v), not modelled. Two genuine defects were found through this property's model and repaired (non-strict type mismatch did not skip the value / the collection items).",
 }
 PROPS["C13"]["claim"] = {
@@ -244,30 +244,42 @@ _C0102_TB = [
 ]
 for _p in ("C01", "C02"):
     PROPS[_p]["driver"] = "_c01"
-    PROPS[_p]["builds"] = [("harness", "verif"), ("harness_c01s", "verif,c01s", "c01s")]
+    PROPS[_p]["builds"] = [("harness", "verif"), ("harness_c01s", "verif,c01s", "c01s"),
+                           ("harness_c01tree", "verif,c01tree", "c01treeenc" if _p == "C01" else "c01treedec")]
     PROPS[_p]["rule"] += _C0102_RULE
     PROPS[_p]["trusted_base"] = PROPS[_p]["trusted_base"] + _C0102_TB
     PROPS[_p]["assumptions"] = PROPS[_p]["assumptions"] + ["strings and documents shorter than 2^62 bytes", "little-endian platform (formatInteger)", "flags given to parseStringUnquote are sound for the input (proved for what Parse computes)"]
+_TREE_RULE = (" c01tree: 3000 (thorough 30000) types of the tree universe (fixed shapes first), 5 values each: j.tree.enc = Marshal of the value against encoding/json and the extracted jenc; j.tree.dec = Unmarshal into a fresh zero value of the standard encodings, the same with white space, null substituted for sub-values, array lengths changed, duplicated / reordered / unknown / case-changed keys, and a malformed stream (truncations, byte mutations), against encoding/json and the extracted jdec (silent on 1.2% of the cases: Unicode-folded keys, stale slice backing arrays).")
+PROPS["C01"]["rule"] += _TREE_RULE
+PROPS["C02"]["rule"] += _TREE_RULE
+for _p in ("C01", "C02"):
+    PROPS[_p]["trusted_base"] = PROPS[_p]["trusted_base"] + ["Json/TreeModel.v: hand-written model of the reflection-driven encoder and decoder over the tree universe (jenc, jdec), tied to the real code and to encoding/json by the j.tree.* cases; the harness builds Go types and values of the universe by reflection (reflect.StructOf) from the printed s-expressions"]
 PROPS["C01"]["models"] = ["Generated/JsonStringGen.v json_encoder_encodeString (machine translation of encoder.encodeString) + json_intLELookup", "Generated/JsonParseGen.v json_escapeIndex/json_escapeByteRepr",
-                          "Json/StrExt.v", "Json/StrModel.v", "Json/NumModel.v", "Json/FloatModel.v (glue around strconv.AppendFloat, a Section variable)", "Json/StrSpec.v, Json/NumSpec.v, Json/FloatSpec.v (transcriptions of encoding/json)"]
+                          "Json/StrExt.v", "Json/StrModel.v", "Json/NumModel.v", "Json/FloatModel.v (glue around strconv.AppendFloat, a Section variable)", "Json/StrSpec.v, Json/NumSpec.v, Json/FloatSpec.v (transcriptions of encoding/json)", "Json/TreeModel.v jenc (hand-written model of the structural encoder)"]
 PROPS["C02"]["models"] = ["Generated/JsonStringGen.v json_decoder_parseStringUnquote (machine translation)", "Generated/JsonParseGen.v parseString/parseUnicode/parseUintHex/parseInt/parseUint/parseNumber/internalParseFlags/skipSpaces/hasNullPrefix",
-                          "Json/StrExt.v", "Json/StrModel.v", "Json/NumModel.v", "Json/StrSpec.v, Json/NumSpec.v (transcriptions of encoding/json)"]
+                          "Json/StrExt.v", "Json/StrModel.v", "Json/NumModel.v", "Json/StrSpec.v, Json/NumSpec.v (transcriptions of encoding/json)", "Json/TreeModel.v jdec (hand-written model of the structural decoder)"]
 PROPS["C01"]["claim"] = {
-    "text": "PARTIAL at proof level: the reflection-driven encoder is decided by differential execution against encoding/json only. Proved for EVERY input (Properties/C01.v): the machine translation of encoder.encodeString (regenerated from json/encode.go on every run) appends, "
+    "text": "PARTIAL at proof level: outside the modelled type universe the reflection-driven encoder is decided by differential execution against encoding/json only. Proved for EVERY input (Properties/C01.v): the machine translation of encoder.encodeString (regenerated from json/encode.go on every run) appends, "
             "for every byte string incl. ill-formed UTF-8 shorter than 2^62, every flag word and every buffer, exactly the standard escaping selected by the EscapeHTML bit - quote and backslash escaped, the short forms for backspace, form feed, new line, carriage return and tab, other control bytes as u00XX escapes, "
             "< > & as u00XX escapes under EscapeHTML only, U+2028/2029 always escaped, each byte outside well-formed UTF-8 as the escape of U+FFFD, everything else (0x7f included) verbatim (c01_encode_string_std; c01_escape_string_std for AppendEscape/Escape); "
             "escapeIndex returns -1 exactly when no byte needs an escape (c01_escape_index) and in that case the early return quote-s-quote IS the standard escaping (c01_escape_fast_path); the standard escaping of any byte string is a JSON text of the RFC 8259 grammar (c01_escape_is_json), "
             "the standard unquoting reads it back as the string with ill-formed bytes replaced by U+FFFD (c01_unquote_escape, c01_sanitize_fixed), and so does the model of json.Unmarshal on the model of json.Marshal's output (c01_string_round_trip). "
             "The hand model of formatInteger/appendInt/appendUint (json/int.go, the package's own table-driven code) writes the canonical decimal text of every int64 and uint64 (c01_append_int, c01_append_uint, c01_decimal_canonical) and every value of every Go integer type survives formatting + typed decoding (c01_int_round_trip). Floats: the package's format selection ('f' or 'e' from the 1e-6 / 1e21 cut-offs at the value's bit size), NaN/Inf rejection and exponent clean-up around strconv.AppendFloat equal encoding/json's floatEncoder for EVERY float description, bit size, destination buffer and EVERY AppendFloat function whose 'e' text has at least four bytes (c01_float_glue_equal; the condition is exact: c01_clean_exp_prefix_iff, c01_float_glue_unrestricted_refuted). "
-            "Everything else of the statement (type shapes, tags, embedding, maps, Marshalers, floats, indent) is decided by correspondence with encoding/json on every run on a reflect-generated type universe.",
+            "STRUCTURE (c01tree_* theorems, model Json/TreeModel.v jenc tied to the package and to encoding/json by the j.tree.enc cases on every run): for every type of a universe of bool, sized integers, strings, pointers, slices, arrays, string-keyed maps and structs with omitempty fields, and every value of the type, "
+            "the bytes Marshal writes are a JSON text of the RFC 8259 grammar (c01tree_enc_valid, also with any white space between tokens), the model of Unmarshal reads them back as the value up to an explicit normalisation (ill-formed UTF-8 sanitised, an omitempty empty non-nil slice or map comes back nil, a non-nil pointer to nil comes back as a nil pointer: c01tree_roundtrip, c01tree_norm_id, c01tree_roundtrip_id) and the encoding is injective up to it (c01tree_enc_injective, _id). "
+            "Everything else of the statement (tags with special characters, embedding, Marshalers, interfaces, floats, indent, other key types) is decided by correspondence with encoding/json on every run on a reflect-generated type universe.",
     "note": "Partial. Trusted: Coq kernel; translator; hand models of unicode/utf8, unicode/utf16 (StrExt.v) and of formatInteger (NumModel.v) tied to the real code/stdlib by ~63k c01s cases per run (impl = oracle = model = spec); std_escape is a transcription of encoding/json go1.23.5 checked against it on every run; extraction+driver; harness. Three recorded findings (F28, F30, F12b) are subtracted by type-shape class.",
 }
 PROPS["C02"]["claim"] = {
-    "text": "PARTIAL at proof level: the reflection-driven decoder is decided by differential execution against encoding/json only. Proved for EVERY input (Properties/C02.v): the machine translation of decoder.parseStringUnquote (over the translated parseString/parseUnicode/parseUintHex, regenerated from json/parse.go on every run) fails exactly when the input "
+    "text": "PARTIAL at proof level: outside the modelled type universe the reflection-driven decoder is decided by differential execution against encoding/json only. Proved for EVERY input (Properties/C02.v): the machine translation of decoder.parseStringUnquote (over the translated parseString/parseUnicode/parseUintHex, regenerated from json/parse.go on every run) fails exactly when the input "
             "(shorter than 2^62, any sound flags word) does not start with an RFC 8259 string literal and otherwise returns exactly the standard unquoting - simple escapes, uXXXX escapes as UTF-8, high+low surrogate pair as one rune, every other surrogate as U+FFFD with the following escape read on its own, raw ill-formed UTF-8 bytes as U+FFFD, "
             "also on the zero-copy Unescaped fast path - and the rest of the input (c02_parse_string_unquote; c02_unquote_grammar); json.Unmarshal into a string (glue model over the translated internalParseFlags/skipSpaces/hasNullPrefix) equals the standard behaviour on every input incl. null, white space and trailing bytes (c02_unmarshal_string); "
             "parseUint/parseInt are exact with overflow exactly outside uint64/int64 (c02_parse_uint_exact, c02_parse_int_exact), the typed decoders decodeInt8..64/decodeUint8..64 return the value iff it is in the range of the Go type and reject a minus sign for unsigned types (c02_decode_int_exact), parseNumber classifies every valid literal (c02_parse_number_kind); "
-            "decoding what the encoder wrote returns the (sanitized) original (c02_string_round_trip, c02_int_round_trip). Everything else (type dispatch, structs, maps, slices, interfaces, histories of documents into one variable, the string option) is decided by correspondence with encoding/json on every run.",
+            "decoding what the encoder wrote returns the (sanitized) original (c02_string_round_trip, c02_int_round_trip). "
+            "STRUCTURE (c02tree_* theorems, model Json/TreeModel.v jdec following json/decode.go function by function, tied to the package and to encoding/json by ~57k j.tree.dec cases per run): for every type of the universe (bool, sized integers, strings, pointers, slices, arrays, string-keyed maps, structs), EVERY document and every fuel above its length: the decoder accepts only RFC 8259 texts and consumes exactly one grammar value (c02tree_dec_valid, _invalid, _value), "
+            "returns a value of the target type (c02tree_dec_shape), reads Marshal's output with any white space between tokens back as the normalised value (c02tree_dec_ws_roundtrip, c02tree_dec_ws), gives the zero value for null and clears only pointers, slices and maps on an inner null (c02tree_null, _null_inner), fills [n]T with what fits, zeroes the missing and skips surplus elements of any type (c02tree_arr_fit/_short/_long), "
+            "decodes a struct from members in ANY order, under the exact name or a name equal up to ASCII case (first such field), with unknown members of any type anywhere (c02tree_obj_any_order, _obj_permutation, _apply_members_spec); its integer reader is the model over the machine-translated parseInt/parseUint (c02tree_dec_int_link); fuel is immaterial (c02tree_dec_fuel*). "
+            "Everything else (interfaces, Unmarshalers, other key types, the string option, Unicode case folding of keys, histories of documents into one variable) is decided by correspondence with encoding/json on every run.",
     "note": "Partial. Trusted as C01, plus: uq_lit / spec_unmarshal_string / spec_unmarshal_int are transcriptions of encoding/json's unquoteBytes and scanner behaviour checked against it on every run. Five recorded findings (F28, F31, F14, F30, F12b) are subtracted by type-shape class.",
 }
 
